@@ -209,6 +209,9 @@ class Ctx:
         self._seen_sigs = {}
         self.findings = json.loads((VERIF / 'known_findings.json').read_text()) \
             if (VERIF / 'known_findings.json').exists() else []
+        for f in sorted((VERIF / 'known_findings.d').glob('*.json')) \
+                if (VERIF / 'known_findings.d').exists() else []:
+            self.findings += json.loads(f.read_text())
         self.rule = ''
         self.exhaustive = False
 
@@ -228,7 +231,7 @@ class Ctx:
             self.samples.append(sample)
 
     # ------------------------------------------------------------- Coq side
-    def build_props(self, props_rel, extra_targets=()):
+    def build_props(self, props_rel, extra_targets=(), scan_dirs=None):
         """make <props>.vo (+deps); then re-run Print Assumptions for every
         theorem of the props file.  Returns (ok, log)."""
         props = COQ / props_rel
@@ -236,7 +239,9 @@ class Ctx:
         self.checker_cmd = (f'cd /verif/coq && coq_makefile -f _CoqProject -o Makefile && '
                             f'make {target}  (coqc 8.16.1, full .vo build) + Print Assumptions '
                             f'of each theorem of {props_rel}')
-        hits = grep_forbidden([COQ])
+        if scan_dirs is None:
+            scan_dirs = [props.parent] + [COQ / d for d in ('core', 'geom') if (COQ / d).exists()]
+        hits = grep_forbidden(scan_dirs)
         if hits:
             self.log('forbidden constructs:', hits[:5])
         ok, log, dt = coq_make([target] + list(extra_targets))
